@@ -98,7 +98,12 @@ class Bar(object):
             notes = NoteContainer(notes)
         elif isinstance(notes, list):
             notes = NoteContainer(notes)
-        if self.current_beat + 1.0 / duration <= self.length or self.length == 0.0:
+        # current_beat is an accumulated float: allow for its rounding error,
+        # otherwise e.g. the 20th sixteenth-quintuplet is refused in 4/4.
+        if (
+            self.current_beat + 1.0 / duration <= self.length + 1e-9
+            or self.length == 0.0
+        ):
             self.bar.append([self.current_beat, duration, notes])
             self.current_beat += 1.0 / duration
             return True
